@@ -237,3 +237,9 @@ Proof. intros. reflexivity. Qed.
 
 Lemma tie_not_ctor_any : forall v m excs, t_not_ v m excs = VNot v (msg_param m) excs.
 Proof. intros. reflexivity. Qed.
+
+(** What omitted keyword arguments of [not_] mean: no message (the default template) and the
+    documented classes [(ValueError, TypeError)]. *)
+Lemma tie_not_defaults :
+  t_not__default_msg = None /\ t_not__default_exc_types = [EValueError; ETypeError].
+Proof. split; reflexivity. Qed.
